@@ -43,7 +43,6 @@ def run(tier: str) -> int:
     else:
         plan = [
             ("SolverComposite", {}, ev, 3, 3, ""),
-            ("SolverComposite", {}, ev, 4, 2, "d4"),
             ("SolverComposite", {}, ev_small, 5, 3, "small5"),
             ("SolverComposite", {"reuse": True}, ev_small, 4, 3, "reuse"),
             ("SolverComposite", {"track": True}, ev_small, 4, 3, "track"),
